@@ -711,6 +711,51 @@ def nonbiasing_scenario(r, k):
                        {"kind": "F", "tsf": 1, "vars": [0], "k": 0.0}], "it0": 0, "events": ev, "A": [0], "B": [1]}
 
 
+def coupling_scenario(r, k):
+    """lagged engine forces that include the Colvars forces, a one-atom distanceZ variable with subtractAppliedForce and
+    outputTotalForce, two restraints: the total force reported at step t+1 must be the engine's own force of step t,
+    with A+B, with A and with B (C08_total_force_coupling)"""
+    v = {"tsf": 1, "w": r.choice([0.5, 1.0, 2.0]), "extra": ["subtractAppliedForce on", "outputTotalForce on"],
+         "comps": [{"main": [0], "ref": [], "axis": 2, "coeff": 1.0, "np": 1, "onesite": True}]}
+    biases = [{"kind": "H", "tsf": r.choice([1, 1, 2, 3]), "vars": [0], "k": r.choice([0.5, 1.0, 2.0]), "centers": [dy(r, -2, 2, 2)]},
+              {"kind": r.choice(["H", "L"]), "tsf": r.choice([1, 2]), "vars": [0], "k": r.choice([1.0, 2.0]), "centers": [dy(r, -2, 2, 2)]}]
+    ev = []
+    for s_ in range(r.randint(6, 10)):
+        z = dy(r, -3, 3, 2)
+        ev.append(("S", [[0.0, 0.0, z], [0.0, 0.0, 0.0]], [[0.0, 0.0, dy(r, -4, 4, 3)], [0.0, 0.0, 0.0]]))
+    return {"id": k, "family": "coupling", "natoms": 2, "mass": [1.0, 1.0], "vars": [v], "biases": biases, "it0": 0,
+            "events": ev, "A": [0], "B": [1], "samestep": False, "showtf": True}
+
+
+def oracle_coupling(run, sc, R, tfmodel):
+    """O6: TF(t+1) is the engine's own force s_t in all three runs (whenever the delivered force s_t + f_t is not exactly
+    zero: that case is the finding recorded under C04); tie: the extracted tf_trace on (s_t, f_t)"""
+    svals = [ev[2][0][2] for ev in sc["events"] if ev[0] == "S"]
+    skipped = 0
+    for t_, steps in ((t_, R[t_]["steps"]) for t_ in R):
+        n = first_error(steps)
+        if any(not stp["V"][0]["act"] for stp in steps[:n]):
+            # the variable sleeps with its only bias: tf_trace (a variable evaluated at every step) does not apply
+            run.dist("coupling:run-skipped-variable-asleep")
+            continue
+        for s in range(n - 1):
+            f = steps[s]["V"][0]["f"]
+            got = steps[s + 1]["TF"].get("v0")
+            if svals[s] + f == 0.0:
+                skipped += 1
+                continue
+            if got is None or not close(got, svals[s]):
+                run.violation("coupling:total-force", "scenario %d run %s: total force reported at step %d is %r, the engine's own force at step %d was %r (Colvars applied %r)"
+                              % (sc["id"], t_, s + 1, got, s, svals[s], f), replay_of(sc, {t_: sc["_subsets"][t_]}, {"step_index": s + 1}))
+                return skipped
+        mt = tfmodel.get("%d:%s" % (sc["id"], t_))
+        if mt is not None:
+            imp = [steps[s]["TF"].get("v0") for s in range(n)]
+            if len(mt) < n or any(imp[s] is None or not close(imp[s], mt[s]) for s in range(n)):
+                run.mismatch("tie:total-force", {"scenario": sc["id"], "run": t_}, imp, mt[:n])
+    return skipped
+
+
 # ------------------------------------------------------------------ driver of the check
 def setup():
     V.extract_model("C08", EXTRACT, DRIVER, ["ocaml/fops.ml"])
@@ -769,7 +814,7 @@ def check(run):
     if os.path.exists(cp):
         scs += json.load(open(cp))
     scs += witness_scenarios()
-    n_mix, n_imp, n_vt, n_nb = (140, 40, 30, 6) if quick else (4000, 1200, 800, 100)
+    n_mix, n_imp, n_vt, n_nb, n_cp = (140, 40, 30, 6, 12) if quick else (4000, 1200, 800, 100, 300)
     k = 0
     for fam, n in (("mix", n_mix), ("impulse", n_imp), ("vartsf", n_vt)):
         for _ in range(n):
@@ -778,10 +823,14 @@ def check(run):
     for _ in range(n_nb):
         scs.append(nonbiasing_scenario(r, k))
         k += 1
+    for _ in range(n_cp):
+        scs.append(coupling_scenario(r, k))
+        k += 1
 
     # batches keep the harness input small
     BATCH = 200
     windows = 0
+    zero_skipped = 0
     for b0 in range(0, len(scs), BATCH):
         batch = scs[b0:b0 + BATCH]
         impl, mod, (rc, err) = run_batch(unit, model, batch, d)
@@ -825,6 +874,19 @@ def check(run):
                 oracle_superposition(run, sc, R)
                 if sc["family"] == "nonbiasing":
                     oracle_nonbiasing(run, sc, R)
+                if sc["family"] == "coupling":
+                    # second model pass: tf_trace on the system forces and the applied forces of the pipeline model
+                    tl, tk = [], []
+                    svals = [ev[2][0][2] for ev in sc["events"] if ev[0] == "S"]
+                    for t in subsets:
+                        tag = "%d:%s" % (sc["id"], t)
+                        if tag in mod:
+                            ms = parse_model_line(mod[tag], sc["natoms"])
+                            tl.append("TF 1 1 %d " % len(ms) + " ".join("%s %s" % (hx(svals[q]), hx(ms[q]["V"][0]["f"])) for q in range(len(ms))))
+                            tk.append(tag)
+                    rc3, tout, _e3 = V.run_lines(model, tl)
+                    tfm = {kk: [hf(x) for x in ln.split()] for kk, ln in zip(tk, tout)}
+                    zero_skipped += oracle_coupling(run, sc, R, tfm)
             for t in subsets:
                 run.count("%d:%s" % (sc["id"], t), nontriv)
             for bb in sc["biases"]:
@@ -835,7 +897,8 @@ def check(run):
             if sc["id"] in (0, 1):
                 run.sample({"scenario": {kk: vv for kk, vv in sc.items() if not kk.startswith("_")},
                             "script_AB": scenario_lines(sc, sorted(sc["A"] + sc["B"]), "x")[:60]})
-    run.cov["correspondence"].update({"scenarios": len(scs), "impulse_windows_checked": windows})
+    run.cov["correspondence"].update({"scenarios": len(scs), "impulse_windows_checked": windows,
+                                      "coupling_steps_skipped_total_force_exactly_zero": zero_skipped})
 
 
 def replay(path):
